@@ -120,7 +120,19 @@ func buildEcho(cs *caseState, sp godi.Provider) http.Handler {
 	}
 	d := e.Group("/d", godiecho.ScopeMiddleware(sp, so2...))
 	d.GET("/"+RouteCtrl, godiecho.Handle(func(k *Ctrl, c echo.Context) error { return c.NoContent(http.StatusOK) }, godiecho.WithPanicRecovery(!o.Recovery)))
-	s.GET("/"+RouteCtrl, route(hCtrl))
+	hT := func() echo.HandlerFunc {
+		return godiecho.Handle(func(k *TCtrl, c echo.Context) error { look(c).onChain(k); return nil }, godiecho.WithPanicRecovery(o.Recovery))
+	}
+	hT1, hT2, hMain := hT(), hT(), route(hCtrl)
+	s.GET("/"+RouteCtrl, func(c echo.Context) error {
+		if err := hT1(c); err != nil {
+			return err
+		}
+		if err := hT2(c); err != nil {
+			return err
+		}
+		return hMain(c)
+	})
 	s.GET("/"+RoutePlain, route(nil))
 	s.GET("/"+RouteUnreg, route(hUnreg))
 	s.GET("/"+RouteFailCtor, route(hFail))
